@@ -59,12 +59,12 @@ pub fn apply_op<T: Subj>(s: &mut T, st: &Step, r: &Res) -> String {
             String::new()
         }
         Kind::Extend => {
-            let it = SimIter::new(&r.items, st.form, st.b, !st.bit, r.panic_after);
+            let it = SimIter::new(&r.items, st.form % 6, st.b, !st.bit, r.panic_after);
             s.extend(it);
             String::new()
         }
         Kind::Collect => {
-            let it = SimIter::new(&r.items, st.form, st.b, !st.bit, r.panic_after);
+            let it = SimIter::new(&r.items, st.form % 6, st.b, !st.bit, r.panic_after);
             *s = T::from_iter(it);
             String::new()
         }
@@ -463,7 +463,10 @@ impl<'t> Exec<'t> {
                     items.truncate(rm);
                 }
                 r.panic_after = if st.a == 0 { None } else { Some(((st.a - 1) as usize) % (items.len() + 1)) };
-                if r.panic_after.is_none() {
+                if st.form % 6 == 5 {
+                    // an iterator that lies about its lower bound breaks its own contract: invariants only
+                    r.want_len = Some(base + items.len());
+                } else if r.panic_after.is_none() {
                     let mut e = if st.kind == Kind::Extend { m.clone() } else { vec![] };
                     e.extend_from_slice(&items);
                     r.expect = Some(e);
